@@ -7,3 +7,10 @@ if [ -f /log/plan ] && grep -qx "$tool" /log/plan; then
 else
   vf_fail=0
 fi
+# "<tool>:silent" in the plan: the tool reports success without doing its work
+if [ -f /log/plan ] && grep -qx "$tool:silent" /log/plan; then
+  echo "SILENT $tool" >> /log/cmds.txt
+  vf_silent=1
+else
+  vf_silent=0
+fi
